@@ -40,6 +40,9 @@ def _mk(kind, uid):
             {703: "TA", 704: "5", 539: [{524: "p2", 525: "D", 538: "2"}]}]})
     if kind == "egrp":
         return FIXMessage("D", {11: f"eg{uid}", 55: "X", 453: []})  # a group sent with zero items (453=0)
+    if kind == "u8":
+        # non-ASCII text (utf-8 on the wire): sizes in characters and in bytes differ in the journaled copy
+        return FIXMessage("D", {11: f"u8{uid}", 55: "X", 58: "Z\u00fcrich \u6771\u4eac", 453: [{448: "\u00e9", 447: "D"}]})
     if kind == "boom":
         return FIXMessage("D", {11: f"boom{uid}", 55: "X"})
     if kind == "hb":
@@ -138,7 +141,7 @@ def run_case(case):
                     return {"signature": "harness|relogon_failed", "clause": "harness", "detail": {"state": c.connection_state.name}, "replay": {"case": case}}
             else:
                 w.send(_mk(k, uid))
-                note_written({"app": "app", "grp": "app", "pdn": "app", "dec": "declined", "hb": "session", "ugrp": "app", "boom": "declined", "ngrp": "app", "egrp": "app"}[k])
+                note_written({"app": "app", "grp": "app", "pdn": "app", "dec": "declined", "hb": "session", "ugrp": "app", "boom": "declined", "ngrp": "app", "egrp": "app", "u8": "app"}[k])
         if awaiting:
             w.advance(1.0)
             w.peer("D", w.peer_seq + 2, [(11, "early")])
@@ -350,7 +353,8 @@ def cases(quick):
                                 out.append((role, slots, awaiting, [p1, p2]))
     # application messages with repeating groups unknown to the library's table; a should_replay callback that raises
     for slots in (("app", "ugrp", "app"), ("ugrp", "app", "hb"), ("app", "boom", "app"), ("boom", "app", "grp"),
-                  ("app", "ngrp", "app"), ("ngrp", "egrp", "hb"), ("egrp", "app", "ngrp"), ("app", "bigtag", "app")):
+                  ("app", "ngrp", "app"), ("ngrp", "egrp", "hb"), ("egrp", "app", "ngrp"), ("app", "bigtag", "app"),
+                  ("app", "u8", "app"), ("u8", "app", "hb"), ("u8", "grp", "u8")):
         last = 1 + len(slots)
         for p in [(1, 0), (2, 0), (2, last - 1), (3, 3), (last, 0), (1, 2)]:
             out.append(("acceptor", slots, False, [p]))
